@@ -322,7 +322,17 @@ func scenDups(rep *Report, tier string, seed int64) {
 		if !stuck[true] && !stuck[false] {
 			// balances (and only balances / relations) must be equal: history rows of the duplicates differ by design
 			keep := map[string]bool{"A": true, "X": true, "H": true}
-			if diff := FirstDiff(FilterDump(final[true], keep), FilterDump(final[false], keep)); diff != "" {
+			stripKeymr := func(lines []string) []string {
+				out := make([]string, len(lines))
+				for i, l := range lines {
+					if strings.HasPrefix(l, "H|") { // the eblock key MR depends on the block's entry list by construction
+						l = l[:strings.LastIndex(l, "|")]
+					}
+					out[i] = l
+				}
+				return out
+			}
+			if diff := FirstDiff(stripKeymr(FilterDump(final[true], keep)), stripKeymr(FilterDump(final[false], keep))); diff != "" {
 				path := WriteReplay(rep.Property, "dups", Replay{Property: rep.Property, Scenario: "dups", Seed: seed, Setup: s,
 					What: "the ledger of the chain with repeated entries differs from the chain with first occurrences only (pattern " + pat + ")", Detail: []string{diff}})
 				rep.Violate("dups:ledger-differs:"+pat, diff, path)
